@@ -1,6 +1,16 @@
 """C19 -- MD3 follows its warn / ask-the-oracle / confirm protocol."""
 from .common import A_COMMON
-TARGETS = []
+Q = "menelaus.concept_drift.md3:MD3"
+TARGETS = [("fn", Q + ".update"), ("fn", Q + ".give_oracle_label"), ("fn", Q + ".set_reference"), ("fn", Q + ".reset")]
 LEVEL = "exploration"
-LEVEL_TEXT = ('Bounded: real MD3 (deterministic stub classifier, user margin function) against a plain-Python protocol state machine on all interleavings of legal and illegal calls up to a bounded length, reference statistics against an independent k-fold computation. Claimed as exploration.')
-ASSUMPTIONS = A_COMMON + []
+LEVEL_TEXT = ('Bounded: real MD3 (deterministic stub classifier, user margin function) against a plain-Python protocol state machine on all interleavings of legal and illegal calls up to a bounded length, reference statistics against an independent k-fold computation. '
+              'Deductive (counted separately): the protocol skeleton of MD3.update / give_oracle_label / set_reference / reset is proved against contracts over '
+              'opaque pandas / sklearn values: update raises exactly when waiting for the oracle or the input is not one row and then changes nothing; the margin density is the '
+              'exponentially forgotten value (restarted from the reference after a drift); warning <=> |md - ref.md| > sensitivity*ref.md_std <=> waiting_for_oracle; '
+              'give_oracle_label raises exactly when not waiting / not one row / columns differ, collects until exactly oracle_data_length_required samples, then decides drift by '
+              'ref.acc - acc > sensitivity*ref.acc_std, adopts the samples as the new reference and stops waiting. calculate_distribution_statistics (k-fold) is an assumed contract; '
+              'classifier, margin function, accuracy_score are deterministic uninterpreted functions. Claimed as exploration because the k-fold statistics are bounded only.')
+ASSUMPTIONS = A_COMMON + [
+    "A-OPAQUE-PANDAS: DataFrames are opaque values characterised by row count and column objects; .loc / [] / concat / to_numpy are uninterpreted functions with row-count axioms; copy.deepcopy of them is the identity (aliasing of DataFrames not modelled)",
+    "assumed contract: MD3.calculate_distribution_statistics returns len == len(data), md_std >= 0, acc_std >= 0 and modifies nothing (bounded tier compares against an independent k-fold computation)",
+]
